@@ -271,7 +271,23 @@ class Parser:
         while not self.at("eof"):
             if until_brace and self.atp("}"):
                 break
-            out.append(self.item())
+            start = self.i
+            try:
+                out.append(self.item())
+            except Unsupported as e:
+                # one item outside the subset must not hide the rest of the file
+                self.i = start
+                try:
+                    self.attrs()
+                except Unsupported:
+                    pass
+                if self.eat("kw", "pub") and self.atp("("):
+                    self.skip_parens()
+                if self.i == start and self.atp(";"):
+                    self.next()
+                else:
+                    self.skip_balanced_item()
+                out.append(("unparsed", str(e)))
         return [x for x in out if x]
 
     def item(self):
